@@ -51,7 +51,7 @@ def main(ctx):
     else:
         ctx.traces_validated = n
     # cost that the call counter cannot see (work around the grammar inside Module.parseString): fresh subprocesses, CPU time
-    # judged through very wide margins (timeout 40 s where the unchanged tree needs < 5 s; growth <= 6x per step where it is < 2x)
+    # judged through very wide margins (timeout 90 s where the unchanged tree needs < 5 s; growth <= 6x per step where it is < 2x)
     if res["ok"]:
         hz = subprocess.run([sys.executable, os.path.join(HERE, "c19_hazard.py"), "--tier", ctx.tier],
                             capture_output=True, text=True, timeout=5000, env=dict(os.environ, VERIF_REPO=fw.REPO))
@@ -75,7 +75,7 @@ def main(ctx):
                          "(deep namespaces, comment openers and slashes inside string literals, one very long line) judged by CPU time in fresh subprocesses")
     return fw.finish(ctx, assumptions=["the bound is proved for an unbounded memo table; pyparsing's 128-entry FIFO is measured against it",
                                        "call counting wraps ParserElement._parseNoCache in the harness process only",
-                                       "the hazard families are judged by CPU time with wide margins (40 s timeout, 6x growth per step): a slowdown inside these margins is not seen"])
+                                       "the hazard families are judged by CPU time with wide margins (90 s timeout, 6x growth per step): a slowdown inside these margins is not seen"])
 
 
 def replay(ctx, path):
